@@ -564,6 +564,21 @@ class Monitor(object):
                     ctx.violation('log-replay:differs:%s' % '+'.join(snap_diff(snap(comp), snap(d)))[:90], case, 'indistinguishable', snap_diff(snap(comp), snap(d)))
                 else:
                     ctx.count('judged.log-replay')
+                    # the rebuilt competition is a competition of its own: carrying on with it (a further bar, a further
+                    # trial, a late entry) must not reach the one it was rebuilt from
+                    before = snap(comp)
+                    for m, a in (('set_bar_height', (comp.heights[-1] if comp.heights else D('1.00')) + (0.05 if comp.heights and isinstance(comp.heights[-1], float) else D('0.05'))),
+                                 ('failed', sh.bibs[0] if sh.bibs else 'A'), ('add_jumper', 'late-entry'), ('retired', sh.bibs[-1] if sh.bibs else 'A')):
+                        try:
+                            if m == 'add_jumper':
+                                d.add_jumper(bib=a)
+                            else:
+                                getattr(d, m)(a)
+                        except Exception:
+                            pass
+                    if snap(comp) != before:
+                        ctx.violation('log-replay:replica-shares-state-with-the-original:%s' % '+'.join(snap_diff(before, snap(comp)))[:80], case,
+                                      'original untouched', snap_diff(before, snap(comp)))
                     if len(sh.log) > 8:
                         ctx.sample('log-replay', {'history': [[m, str(v)] for m, v in sh.log], 'state': comp.state, 'refused_calls_in_between': sh.refused}, 3)
             except Exception as e:
@@ -937,7 +952,7 @@ class Explorer(object):
         self.states += 1
         return c
 
-    def jumpoff_scenario(self, nj, max_jo=3, scripted=False):
+    def jumpoff_scenario(self, nj, max_jo=3, scripted=False, passes=False):
         """A rule-conforming competition built to end in a jump-off: K athletes with identical cards tie for first, the
         others have the same best with more failures, a lower best or no clearance; then up to max_jo jump-off heights with
         the bar at, next to, below or above the tied best and random single attempts until it is decided."""
@@ -1016,7 +1031,11 @@ class Explorer(object):
                 if c.state != 'jumpoff':
                     break
                 m = rnd.choice(['cleared', 'cleared', 'failed', 'failed', 'retired'] if rnd_no else ['cleared', 'cleared', 'cleared', 'failed'])
-                if not must_refuse(sh, {j.bib: j.place for j in c.jumpers}, m, b):
+                if passes and rnd.random() < 0.2:
+                    # the code accepts a pass inside a jump-off; what it means is left open by the rule text, but the log,
+                    # the card and the jumping order must still rebuild whatever it leads to
+                    m = 'passed'
+                if not must_refuse(sh, {j.bib: j.place for j in c.jumpers}, m, b) or m == 'passed':
                     self.apply(c, m, b)
         if c.state == 'jumpoff':
             for b in list(sh.jo_participants or []):
